@@ -1,1 +1,1509 @@
 // Kani harnesses compiled inside rs-matter/src/failsafe.rs (module `verif_kani`).
+
+mod c08 {
+    use super::*;
+
+    use core::cell::Cell;
+
+    use crate::cert::CertVerifier;
+    use crate::dm::clusters::net_comm::{Networks, NetworksError, WirelessCreds};
+    use crate::persist::KvBlobStore;
+    use crate::sc::pase::CommWindow;
+    use crate::transport::session::Sessions;
+
+    pub(super) const CSR_A: u8 = 0x01; // CSRRequest(isForUpdateNOC = false) received
+    pub(super) const CSR_U: u8 = 0x02; // CSRRequest(isForUpdateNOC = true) received
+    pub(super) const ROOT: u8 = 0x04; // AddTrustedRootCertificate received
+    pub(super) const NOC_A: u8 = 0x08; // AddNOC received
+    pub(super) const NOC_U: u8 = 0x10; // UpdateNOC received
+
+    /// Must equal `PERSISTED_FABRIC_ID` of kani/fabric.rs (`verif_kani` modules cannot name each other).
+    pub(super) const PERSISTED_FABRIC_ID: u64 = 0x5045_5253_4953_5444;
+
+    pub(super) fn any_error() -> Error {
+        let k: u8 = kani::any();
+        match k % 6 {
+            0 => ErrorCode::ResourceExhausted,
+            1 => ErrorCode::InvalidData,
+            2 => ErrorCode::BufferTooSmall,
+            3 => ErrorCode::TLVTypeMismatch,
+            4 => ErrorCode::Invalid,
+            _ => ErrorCode::NoSpace,
+        }
+        .into()
+    }
+
+    // ---- the most general crypto ---------------------------------------------------------------
+
+    use rand_core::{CryptoRng, RngCore};
+    use crate::crypto::{CryptoSensitive, CryptoSensitiveRef};
+
+    /// Arbitrary bytes, arbitrary outcome (a failing export may have written part of the key).
+    fn nd_write<const L: usize>(key: &mut CryptoSensitive<L>) -> Result<(), Error> {
+        *key.access_mut() = kani::any();
+        if kani::any() { Err(any_error()) } else { Ok(()) }
+    }
+
+    /// The most general `Crypto`: key generation / import / export return an arbitrary outcome and
+    /// arbitrary bytes; every operation the functions under contract must not need panics.
+    #[derive(Copy, Clone, Debug)]
+    #[cfg_attr(feature = "defmt", derive(defmt::Format))]
+    pub struct NdCrypto;
+
+    impl Crypto for NdCrypto {
+        type Rand<'a>
+            = NdCrypto
+        where
+            Self: 'a;
+
+        type WeakRand<'a>
+            = NdCrypto
+        where
+            Self: 'a;
+
+        type Hash<'a>
+            = NdCrypto
+        where
+            Self: 'a;
+
+        type Hash1<'a>
+            = NdCrypto
+        where
+            Self: 'a;
+
+        type Hmac<'a>
+            = NdCrypto
+        where
+            Self: 'a;
+
+        type Kdf<'a>
+            = NdCrypto
+        where
+            Self: 'a;
+
+        type PbKdf<'a>
+            = NdCrypto
+        where
+            Self: 'a;
+
+        type Aead<'a>
+            = NdCrypto
+        where
+            Self: 'a;
+
+        type PublicKey<'a>
+            = NdCrypto
+        where
+            Self: 'a;
+
+        type SecretKey<'a>
+            = NdCrypto
+        where
+            Self: 'a;
+
+        type SigningSecretKey<'a>
+            = NdCrypto
+        where
+            Self: 'a;
+
+        type EcScalar<'a>
+            = NdCrypto
+        where
+            Self: 'a;
+
+        type EcPoint<'a>
+            = NdCrypto
+        where
+            Self: 'a;
+
+        fn rand(&self) -> Result<Self::Rand<'_>, Error> {
+            unimplemented!()
+        }
+
+        fn weak_rand(&self) -> Result<Self::WeakRand<'_>, Error> {
+            unimplemented!()
+        }
+
+        fn hash(&self) -> Result<Self::Hash<'_>, Error> {
+            unimplemented!()
+        }
+
+        fn hash1(&self) -> Result<Self::Hash<'_>, Error> {
+            unimplemented!()
+        }
+
+        fn hmac<const KEY_LEN: usize>(
+            &self,
+            _key: CryptoSensitiveRef<'_, KEY_LEN>,
+        ) -> Result<Self::Hmac<'_>, Error> {
+            unimplemented!()
+        }
+
+        fn kdf(&self) -> Result<Self::Kdf<'_>, Error> {
+            unimplemented!()
+        }
+
+        fn pbkdf(&self) -> Result<Self::PbKdf<'_>, Error> {
+            unimplemented!()
+        }
+
+        fn aead(&self) -> Result<Self::Aead<'_>, Error> {
+            unimplemented!()
+        }
+
+        fn pub_key(
+            &self,
+            _key: crate::crypto::CanonPkcPublicKeyRef<'_>,
+        ) -> Result<Self::PublicKey<'_>, Error> {
+            unimplemented!()
+        }
+
+        fn generate_secret_key(&self) -> Result<Self::SecretKey<'_>, Error> {
+            if kani::any() { Err(any_error()) } else { Ok(NdCrypto) }
+        }
+
+        fn secret_key(
+            &self,
+            _key: crate::crypto::CanonPkcSecretKeyRef<'_>,
+        ) -> Result<Self::SecretKey<'_>, Error> {
+            if kani::any() { Err(any_error()) } else { Ok(NdCrypto) }
+        }
+
+        fn singleton_singing_secret_key(&self) -> Result<Self::SigningSecretKey<'_>, Error> {
+            unimplemented!()
+        }
+
+        fn ec_scalar(
+            &self,
+            _scalar: crate::crypto::CanonEcScalarRef<'_>,
+        ) -> Result<Self::EcScalar<'_>, Error> {
+            unimplemented!()
+        }
+
+        fn ec_scalar_mod_p(
+            &self,
+            _uint: crate::crypto::CanonUint320Ref<'_>,
+        ) -> Result<Self::EcScalar<'_>, Error> {
+            unimplemented!()
+        }
+
+        fn generate_ec_scalar(&self) -> Result<Self::EcScalar<'_>, Error> {
+            unimplemented!()
+        }
+
+        fn ec_point(
+            &self,
+            _point: crate::crypto::CanonEcPointRef<'_>,
+        ) -> Result<Self::EcPoint<'_>, Error> {
+            unimplemented!()
+        }
+
+        fn ec_generator_point(&self) -> Result<Self::EcPoint<'_>, Error> {
+            unimplemented!()
+        }
+    }
+
+    impl<const HASH_LEN: usize> crate::crypto::Digest<HASH_LEN> for NdCrypto {
+        fn update(&mut self, _data: &[u8]) -> Result<(), Error> {
+            unimplemented!()
+        }
+
+        fn finish_current(&mut self, _out: &mut CryptoSensitive<HASH_LEN>) -> Result<(), Error> {
+            unimplemented!()
+        }
+
+        fn finish(self, _out: &mut CryptoSensitive<HASH_LEN>) -> Result<(), Error> {
+            unimplemented!()
+        }
+    }
+
+    impl crate::crypto::Kdf for NdCrypto {
+        fn expand<const IKM_LEN: usize, const KEY_LEN: usize>(
+            self,
+            _salt: &[u8],
+            _ikm: CryptoSensitiveRef<'_, IKM_LEN>,
+            _info: &[u8],
+            _key: &mut CryptoSensitive<KEY_LEN>,
+        ) -> Result<(), Error> {
+            unimplemented!()
+        }
+    }
+
+    impl crate::crypto::PbKdf for NdCrypto {
+        fn derive<const PASS_LEN: usize, const KEY_LEN: usize>(
+            self,
+            _password: CryptoSensitiveRef<'_, PASS_LEN>,
+            _iter: usize,
+            _salt: &[u8],
+            _out: &mut CryptoSensitive<KEY_LEN>,
+        ) -> Result<(), Error> {
+            unimplemented!()
+        }
+    }
+
+    impl<const KEY_LEN: usize, const NONCE_LEN: usize> crate::crypto::Aead<KEY_LEN, NONCE_LEN>
+        for NdCrypto
+    {
+        fn encrypt_in_place<'a>(
+            &mut self,
+            _key: CryptoSensitiveRef<'_, KEY_LEN>,
+            _nonce: CryptoSensitiveRef<'_, NONCE_LEN>,
+            _aad: &[u8],
+            _data: &'a mut [u8],
+            _data_len: usize,
+        ) -> Result<&'a [u8], Error> {
+            unimplemented!()
+        }
+
+        fn decrypt_in_place<'a>(
+            &mut self,
+            _key: CryptoSensitiveRef<'_, KEY_LEN>,
+            _nonce: CryptoSensitiveRef<'_, NONCE_LEN>,
+            _aad: &[u8],
+            _data: &'a mut [u8],
+        ) -> Result<&'a [u8], Error> {
+            unimplemented!()
+        }
+    }
+
+    impl<const KEY_LEN: usize, const SIGNATURE_LEN: usize>
+        crate::crypto::PublicKey<'_, KEY_LEN, SIGNATURE_LEN> for NdCrypto
+    {
+        fn verify(
+            &self,
+            _msg: &[u8],
+            _signature: CryptoSensitiveRef<SIGNATURE_LEN>,
+        ) -> Result<bool, Error> {
+            unimplemented!()
+        }
+
+        fn write_canon(&self, _key: &mut CryptoSensitive<KEY_LEN>) -> Result<(), Error> {
+            nd_write(_key)
+        }
+    }
+
+    impl<const PUB_KEY_LEN: usize, const SIGNATURE_LEN: usize>
+        crate::crypto::SigningSecretKey<'_, PUB_KEY_LEN, SIGNATURE_LEN> for NdCrypto
+    {
+        type PublicKey<'s>
+            = NdCrypto
+        where
+            Self: 's;
+
+        fn csr<'s>(&self, _buf: &'s mut [u8]) -> Result<&'s [u8], Error> {
+            unimplemented!()
+        }
+
+        fn pub_key(&self) -> Result<Self::PublicKey<'_>, Error> {
+            if kani::any() { Err(any_error()) } else { Ok(NdCrypto) }
+        }
+
+        fn sign(
+            &self,
+            _data: &[u8],
+            _signature: &mut CryptoSensitive<SIGNATURE_LEN>,
+        ) -> Result<(), Error> {
+            unimplemented!()
+        }
+    }
+
+    impl<
+            const KEY_LEN: usize,
+            const PUB_KEY_LEN: usize,
+            const SIGNATURE_LEN: usize,
+            const SHARED_SECRET_LEN: usize,
+        > crate::crypto::SecretKey<'_, KEY_LEN, PUB_KEY_LEN, SIGNATURE_LEN, SHARED_SECRET_LEN>
+        for NdCrypto
+    {
+        fn derive_shared_secret(
+            &self,
+            _peer_pub_key: &Self::PublicKey<'_>,
+            _shared_secret: &mut CryptoSensitive<SHARED_SECRET_LEN>,
+        ) -> Result<(), Error> {
+            unimplemented!()
+        }
+
+        fn write_canon(&self, _key: &mut CryptoSensitive<KEY_LEN>) -> Result<(), Error> {
+            nd_write(_key)
+        }
+    }
+
+    impl<const LEN: usize> crate::crypto::EcScalar<'_, LEN> for NdCrypto {
+        fn mul(&self, _other: &Self) -> Result<Self, Error> {
+            unimplemented!()
+        }
+
+        fn write_canon(&self, _scalar: &mut CryptoSensitive<LEN>) -> Result<(), Error> {
+            unimplemented!()
+        }
+    }
+
+    impl<'a, const LEN: usize, const SCALAR_LEN: usize> crate::crypto::EcPoint<'a, LEN, SCALAR_LEN>
+        for NdCrypto
+    {
+        type Scalar<'s> = NdCrypto;
+
+        fn is_valid_pubkey(&self) -> Result<bool, Error> {
+            unimplemented!()
+        }
+
+        fn neg(&self) -> Result<Self, Error> {
+            unimplemented!()
+        }
+
+        fn mul(&self, _scalar: &Self::Scalar<'a>) -> Result<Self, Error> {
+            unimplemented!()
+        }
+
+        fn add_mul(
+            &self,
+            _s1: &Self::Scalar<'a>,
+            _p2: &Self,
+            _s2: &Self::Scalar<'a>,
+        ) -> Result<Self, Error> {
+            unimplemented!()
+        }
+
+        fn write_canon(&self, _point: &mut CryptoSensitive<LEN>) -> Result<(), Error> {
+            unimplemented!()
+        }
+    }
+
+    impl RngCore for NdCrypto {
+        fn next_u32(&mut self) -> u32 {
+            unimplemented!()
+        }
+
+        fn next_u64(&mut self) -> u64 {
+            unimplemented!()
+        }
+
+        fn fill_bytes(&mut self, _dest: &mut [u8]) {
+            unimplemented!()
+        }
+
+        fn try_fill_bytes(&mut self, _dest: &mut [u8]) -> Result<(), rand_core::Error> {
+            unimplemented!()
+        }
+    }
+
+    impl CryptoRng for NdCrypto {}
+
+    pub(super) fn any_time() -> UtcTime {
+        if kani::any() { UtcTime::Reliable(kani::any()) } else { UtcTime::LastKnown(kani::any()) }
+    }
+
+    // ---- time ------------------------------------------------------------------------------------
+
+    pub(super) static mut NOW: u64 = 0;
+
+    pub(super) fn stub_now() -> Instant {
+        Instant::from_ticks(unsafe { NOW })
+    }
+
+    // ---- certificate checks: any outcome -----------------------------------------------------------
+
+    pub(super) fn stub_finalise<'a, C: Crypto>(_v: CertVerifier<'a, C>, _buf: &mut [u8]) -> Result<(), Error>
+    where
+        'a: 'a,
+    {
+        if kani::any() { Err(any_error()) } else { Ok(()) }
+    }
+
+    pub(super) fn stub_path_len<'a>(_c: &CertRef<'a>) -> Result<Option<u8>, Error>
+    where
+        'a: 'a,
+    {
+        if kani::any() { Err(any_error()) } else { Ok(kani::any()) }
+    }
+
+    pub(super) fn stub_validate_certs<C: Crypto>(
+        _crypto: C,
+        _time: UtcTime,
+        _noc: &CertRef,
+        _icac: Option<&CertRef>,
+        _root: &CertRef,
+        _buf: &mut [u8],
+    ) -> Result<(), Error> {
+        if kani::any() { Err(any_error()) } else { Ok(()) }
+    }
+
+    pub(super) fn stub_get_fabric_id<'a>(_c: &CertRef<'a>) -> Result<u64, Error>
+    where
+        'a: 'a,
+    {
+        if kani::any() { Err(any_error()) } else { Ok(kani::any()) }
+    }
+
+    /// Two arbitrary public keys; every certificate carries one of them (or a truncated one, or none).
+    pub(super) static mut PUBKEYS: [[u8; 65]; 2] = [[0; 65]; 2];
+
+    pub(super) fn stub_pubkey<'a, 's>(_c: &'s CertRef<'a>) -> Result<&'s [u8], Error>
+    where
+        'a: 'a,
+    {
+        if kani::any() {
+            return Err(any_error());
+        }
+        let which: bool = kani::any();
+        let short: bool = kani::any();
+        let key: &'static [u8; 65] = unsafe { &*core::ptr::addr_of!(PUBKEYS[which as usize]) };
+        Ok(if short { &key[..64] } else { &key[..] })
+    }
+
+    // ---- commissioning window: open or not -------------------------------------------------------
+
+    pub(super) static mut WINDOW_OPEN: bool = false;
+
+    pub(super) fn stub_comm_window(_p: &Pase) -> Option<&CommWindow> {
+        if unsafe { WINDOW_OPEN } {
+            // only `is_some()` is looked at by `arm`
+            let slot = Box::leak(Box::new(core::mem::MaybeUninit::<CommWindow>::uninit()));
+            Some(unsafe { &*slot.as_ptr() })
+        } else {
+            None
+        }
+    }
+
+    // ---- key-value store and network store by contract ------------------------------------------
+
+    /// A key-value store. `fail == false` is "a working store": loads succeed; which blobs exist
+    /// is fixed by `fab_blob` (a persisted copy of the armed fabric) and `net_blob` (persisted
+    /// networks). The fail-safe never writes: `store`/`remove` are refused with a panic.
+    pub(super) struct NdStore {
+        fail: bool,
+        fab_blob: bool,
+        net_blob: bool,
+    }
+
+    impl KvBlobStore for NdStore {
+        fn load<'a>(&mut self, key: u16, buf: &'a mut [u8]) -> Result<Option<&'a [u8]>, Error> {
+            if self.fail && kani::any() {
+                return Err(any_error());
+            }
+            let exists = if key == NETWORKS_KEY { self.net_blob } else { self.fab_blob };
+            if exists { Ok(Some(&buf[..1])) } else { Ok(None) }
+        }
+
+        fn store(&mut self, _key: u16, _data: &[u8], _buf: &mut [u8]) -> Result<(), Error> {
+            panic!("the fail-safe must not write to the store")
+        }
+
+        fn remove(&mut self, _key: u16, _buf: &mut [u8]) -> Result<(), Error> {
+            panic!("the fail-safe must not write to the store")
+        }
+    }
+
+    pub(super) struct NdKv {
+        pub(super) fail: bool,
+        pub(super) fab_blob: bool,
+        pub(super) net_blob: bool,
+    }
+
+    impl KvBlobStoreAccess for NdKv {
+        fn access<F, R>(&self, f: F) -> R
+        where
+            F: FnOnce(&mut dyn KvBlobStore, &mut [u8]) -> R,
+        {
+            let mut store = NdStore { fail: self.fail, fab_blob: self.fab_blob, net_blob: self.net_blob };
+            let mut buf = [0u8; 4];
+            f(&mut store, &mut buf)
+        }
+    }
+
+    /// Network store: records whether the persisted image was loaded (1) or the store was reset (2);
+    /// a second call of either makes it 3. With `fail == false` both succeed.
+    pub(super) struct NdNets<'a> {
+        log: &'a Cell<u8>,
+        fail: bool,
+    }
+
+    impl NdNets<'_> {
+        fn record(&self, what: u8) -> Result<(), Error> {
+            self.log.set(if self.log.get() == 0 { what } else { 3 });
+            if self.fail && kani::any() { Err(any_error()) } else { Ok(()) }
+        }
+    }
+
+    impl Networks for NdNets<'_> {
+        fn max_networks(&self) -> Result<u8, Error> { unimplemented!() }
+        fn networks(&self, _f: &mut dyn FnMut(&[u8]) -> Result<(), Error>) -> Result<(), Error> { unimplemented!() }
+        fn creds(&self, _network_id: &[u8], _f: &mut dyn FnMut(&WirelessCreds) -> Result<(), Error>) -> Result<u8, NetworksError> { unimplemented!() }
+        fn next_creds(&self, _last_network_id: Option<&[u8]>, _f: &mut dyn FnMut(&WirelessCreds) -> Result<(), Error>) -> Result<bool, Error> { unimplemented!() }
+        fn enabled(&self) -> Result<bool, Error> { unimplemented!() }
+        fn set_enabled(&mut self, _enabled: bool) -> Result<(), Error> { unimplemented!() }
+        fn add_or_update(&mut self, _creds: &WirelessCreds<'_>) -> Result<u8, NetworksError> { unimplemented!() }
+        fn reorder(&mut self, _index: u8, _network_id: &[u8]) -> Result<u8, NetworksError> { unimplemented!() }
+        fn remove(&mut self, _network_id: &[u8]) -> Result<u8, NetworksError> { unimplemented!() }
+        fn managed(&self) -> Result<bool, Error> { unimplemented!() }
+        fn set_managed(&mut self, _managed: bool) -> Result<(), Error> { unimplemented!() }
+        fn reset(&mut self) -> Result<(), Error> { self.record(2) }
+        fn load(&mut self, _data: &[u8]) -> Result<(), Error> { self.record(1) }
+        fn save(&self, _buf: &mut [u8]) -> Result<Option<usize>, Error> { unimplemented!() }
+    }
+
+    pub(super) struct NdNetAccess {
+        pub(super) log: Cell<u8>,
+        pub(super) fail: bool,
+    }
+
+    impl NetworksAccess for NdNetAccess {
+        fn access<F: FnOnce(&mut dyn Networks) -> R, R>(&self, f: F) -> R {
+            f(&mut NdNets { log: &self.log, fail: self.fail })
+        }
+    }
+
+    // ---- states -------------------------------------------------------------------------------------
+
+    pub(super) fn any_mode() -> SessionMode {
+        let k: u8 = kani::any();
+        kani::assume(k < 4);
+        match k {
+            0 => SessionMode::PlainText,
+            1 => SessionMode::Pase { fab_idx: kani::any() },
+            2 => SessionMode::Case { fab_idx: kani::any(), cat_ids: kani::any() },
+            _ => SessionMode::Group { fab_idx: kani::any(), group_id: kani::any() },
+        }
+    }
+
+    /// What the statement calls the session context: is it secured, is it operational (CASE), which
+    /// fabric does it act for.
+    pub(super) fn mode_view(m: &SessionMode) -> (bool, bool, u8) {
+        match m {
+            SessionMode::PlainText => (false, false, 0),
+            SessionMode::Pase { fab_idx } => (true, false, *fab_idx),
+            SessionMode::Case { fab_idx, .. } => (true, true, fab_idx.get()),
+            SessionMode::Group { fab_idx, .. } => (true, false, fab_idx.get()),
+        }
+    }
+
+    /// An arbitrary fail-safe built from its fields: any state (any instant, timeout, fabric index,
+    /// any of the 32 flag sets), any breadcrumb, any staged key, any staged root of any length up
+    /// to the buffer capacity. No invariant is assumed.
+    pub(super) fn any_failsafe() -> FailSafe {
+        let state = if kani::any() {
+            State::Idle
+        } else {
+            State::Armed(ArmedCtx {
+                armed_at: Instant::from_ticks(kani::any()),
+                timeout_secs: kani::any(),
+                fab_idx: kani::any(),
+                flags: NocFlags::from_bits_truncate(kani::any()),
+            })
+        };
+        let mut secret_key = CanonPkcSecretKey::new();
+        *secret_key.access_mut() = kani::any();
+        // the staged root: any length up to the capacity, any bytes (filled without a loop)
+        let mut root_ca: Vec<u8, { MAX_CERT_TLV_LEN }> = Vec::new();
+        let content: [u8; MAX_CERT_TLV_LEN] = kani::any();
+        let n: usize = kani::any();
+        kani::assume(n <= MAX_CERT_TLV_LEN);
+        unsafe {
+            core::ptr::copy_nonoverlapping(content.as_ptr(), root_ca.as_mut_ptr(), MAX_CERT_TLV_LEN);
+            root_ca.set_len(n);
+        }
+        FailSafe { state, secret_key, root_ca, breadcrumb: kani::any() }
+    }
+
+    #[derive(Copy, Clone, PartialEq, Eq)]
+    pub(super) struct FsSnap {
+        pub(super) armed: bool,
+        pub(super) armed_at: u64,
+        pub(super) timeout: u16,
+        pub(super) fab_idx: u8,
+        pub(super) flags: u8,
+        pub(super) breadcrumb: u64,
+        pub(super) secret: [u8; 32],
+        pub(super) root_len: usize,
+        /// the byte of the staged root at the (arbitrary) probe position, if inside
+        pub(super) root_byte: Option<u8>,
+    }
+
+    impl FsSnap {
+        /// the state proper (everything but the two staging buffers)
+        pub(super) fn ctl(&self) -> (bool, u64, u16, u8, u8, u64) {
+            (self.armed, self.armed_at, self.timeout, self.fab_idx, self.flags, self.breadcrumb)
+        }
+        pub(super) fn root(&self) -> (usize, Option<u8>) {
+            (self.root_len, self.root_byte)
+        }
+    }
+
+    pub(super) fn fs_snap(fs: &FailSafe, probe: usize) -> FsSnap {
+        let (armed, armed_at, timeout, fab_idx, flags) = match &fs.state {
+            State::Idle => (false, 0, 0, 0, 0),
+            State::Armed(c) => (true, c.armed_at.as_ticks(), c.timeout_secs, c.fab_idx, c.flags.bits()),
+        };
+        FsSnap {
+            armed,
+            armed_at,
+            timeout,
+            fab_idx,
+            flags,
+            breadcrumb: fs.breadcrumb,
+            secret: *fs.secret_key.access(),
+            root_len: fs.root_ca.len(),
+            root_byte: fs.root_ca.get(probe).copied(),
+        }
+    }
+
+    /// The gate, written from the statement: a credential command is accepted only while the
+    /// fail-safe is armed, only over a secured session acting for the fabric the fail-safe context
+    /// belongs to ("the session context that armed it"; UpdateNOC only makes sense on an operational
+    /// session), only after the commands it depends on (`present`) and never after the ones that
+    /// exclude it (`absent`, which contains the command itself: once each).
+    pub(super) fn gate(s: &FsSnap, mode: &SessionMode, present: u8, absent: u8, op: u8) -> bool {
+        let (secured, operational, fab) = mode_view(mode);
+        s.armed
+            && secured
+            && (op != NOC_U || operational)
+            && s.fab_idx == fab
+            && s.flags & present == present
+            && s.flags & absent == 0
+    }
+
+    /// `Err` leaves the fail-safe as it was: the state proper is bit-identical, and whatever is
+    /// *staged* (a root certificate once ROOT is flagged, a key once a CSR is flagged) is untouched.
+    /// (The two buffers hold dead bytes while their flag is clear - `expire`/`disarm` never wipe them.)
+    macro_rules! err_keeps_state {
+        ($before:expr, $after:expr, $ctl:literal, $root:literal, $key:literal) => {
+            kani::assert($before.ctl() == $after.ctl(), $ctl);
+            kani::assert($before.flags & ROOT == 0 || $before.root() == $after.root(), $root);
+            kani::assert($before.flags & (CSR_A | CSR_U) == 0 || $before.secret == $after.secret, $key);
+        };
+    }
+
+    // ==== check_state @ failsafe.rs:769 ================================================================
+
+    // TIER: quick
+    // KIND: complete
+    #[kani::proof]
+    #[kani::unwind(8)]
+    fn c08_check_state_contract() {
+        let fs = any_failsafe();
+        let mode = any_mode();
+        let (present, absent, op): (u8, u8, u8) = (kani::any(), kani::any(), kani::any());
+        kani::assume(present < 0x20 && absent < 0x20 && op < 0x20);
+        let s = fs_snap(&fs, 0);
+
+        let r = fs.check_state(
+            &mode,
+            NocFlags::from_bits_truncate(present),
+            NocFlags::from_bits_truncate(absent),
+            NocFlags::from_bits_truncate(op),
+        );
+
+        let code = r.as_ref().err().map(|e| e.code());
+        kani::assert(r.is_ok() == gate(&s, &mode, present, absent, op), "C08.check_state.ok_iff_gate");
+        // it is a pure query (`&self`): nothing can change. The status codes of refusals:
+        let (secured, operational, fab) = mode_view(&mode);
+        kani::assert(s.armed || code == Some(ErrorCode::FailSafeRequired), "C08.check_state.unarmed_is_failsafe_required");
+        kani::assert(
+            !(s.armed && (!secured || (op == NOC_U && !operational))) || code == Some(ErrorCode::GennCommInvalidAuthentication),
+            "C08.check_state.wrong_session_kind_is_invalid_authentication",
+        );
+        kani::assert(
+            !(s.armed && secured && !(op == NOC_U && !operational) && s.fab_idx != fab) || code == Some(ErrorCode::NocInvalidFabricIndex),
+            "C08.check_state.other_fabric_is_invalid_fabric_index",
+        );
+        kani::assert(
+            !(s.armed && secured && !(op == NOC_U && !operational) && s.fab_idx == fab && r.is_err())
+                || code == Some(ErrorCode::ConstraintError)
+                || (code == Some(ErrorCode::NocMissingCsr) && (op == NOC_A || op == NOC_U) && s.flags & (CSR_A | CSR_U) == 0),
+            "C08.check_state.out_of_order_is_constraint_error_or_missing_csr",
+        );
+        // check_armed is the empty-triple instance
+        kani::assert(fs.check_armed(&mode).is_ok() == gate(&s, &mode, 0, 0, 0), "C08.check_armed.ok_iff_armed_for_this_session_context");
+
+        kani::cover!(r.is_ok() && op == NOC_U, "UpdateNOC triple accepted");
+        kani::cover!(r.is_ok() && matches!(mode, SessionMode::Pase { .. }), "accepted over PASE");
+        kani::cover!(r.is_ok() && matches!(mode, SessionMode::Group { .. }), "accepted for a group session mode");
+        kani::cover!(code == Some(ErrorCode::NocMissingCsr), "missing CSR");
+        kani::cover!(code == Some(ErrorCode::NocInvalidFabricIndex), "fabric mismatch");
+        kani::cover!(s.armed && s.flags & absent != 0 && s.flags & present == present && s.fab_idx == fab && secured, "refused for a repeated / excluded command");
+    }
+
+    // ==== the prescribed order (finite-state corollary) ==================================================
+
+    /// The `(present, absent, op)` triple of each credential command - each entry point below is
+    /// proved to accept only when the gate holds for ITS triple (`C08.<cmd>.ok_only_through_gate`).
+    pub(super) fn triple(cmd: u8) -> (u8, u8, u8) {
+        match cmd {
+            0 => (0, ROOT, ROOT),                                  // AddTrustedRootCertificate
+            1 => (0, CSR_A | CSR_U, CSR_A),                        // CSRRequest
+            2 => (0, CSR_A | CSR_U, CSR_U),                        // CSRRequest(isForUpdateNOC)
+            3 => (ROOT | CSR_A, NOC_A | CSR_U | NOC_U, NOC_A),     // AddNOC
+            _ => (CSR_U, ROOT | NOC_A | CSR_A | NOC_U, NOC_U),     // UpdateNOC
+        }
+    }
+
+    /// Flag sets reachable from "just armed" (inductive: `c08_arm_contract` gives the base - a fresh
+    /// context has no flags - and the harness below the step).
+    pub(super) fn order_inv(f: u8) -> bool {
+        !(f & CSR_A != 0 && f & CSR_U != 0)
+            && (f & NOC_A == 0 || (f & CSR_A != 0 && f & ROOT != 0))
+            && (f & NOC_U == 0 || f & CSR_U != 0)
+            && !(f & NOC_A != 0 && f & NOC_U != 0)
+    }
+
+    fn accept_step() -> (u8, u8, u8, bool) {
+        let mut fs = any_failsafe();
+        let mode = any_mode();
+        let cmd: u8 = kani::any();
+        kani::assume(cmd < 5);
+        let (present, absent, op) = triple(cmd);
+        let s = fs_snap(&fs, 0);
+        kani::assume(order_inv(s.flags));
+        let accepted = fs
+            .check_state(&mode, NocFlags::from_bits_truncate(present), NocFlags::from_bits_truncate(absent), NocFlags::from_bits_truncate(op))
+            .is_ok();
+        if accepted {
+            fs.add_flags(NocFlags::from_bits_truncate(op));
+        }
+        (cmd, s.flags, fs_snap(&fs, 0).flags, accepted)
+    }
+
+    // TIER: quick
+    // KIND: complete
+    /// Every accepted credential command extends a well-ordered history to a well-ordered one:
+    /// CSR once (of one kind), root once, AddNOC only after CSR and root and once, UpdateNOC only
+    /// after an update-CSR, once, and never mixed with the add flow.
+    #[kani::proof]
+    #[kani::unwind(8)]
+    fn c08_command_order() {
+        let (cmd, f, f2, accepted) = accept_step();
+        let (_, _, op) = triple(cmd);
+        if accepted {
+            kani::assert(f & op == 0, "C08.order.each_command_at_most_once");
+            kani::assert(f2 == f | op, "C08.order.flag_recorded");
+            kani::assert(order_inv(f2), "C08.order.history_stays_well_ordered");
+            kani::assert(!(cmd == 1 || cmd == 2) || f & (CSR_A | CSR_U) == 0, "C08.order.single_csr_of_one_kind");
+            kani::assert(cmd != 3 || (f & CSR_A != 0 && f & ROOT != 0), "C08.order.add_noc_only_after_csr_and_root");
+            kani::assert(cmd != 4 || f & CSR_U != 0, "C08.order.update_noc_only_after_update_csr");
+            kani::assert(cmd != 3 || f & (CSR_U | NOC_U) == 0, "C08.order.add_noc_not_in_update_flow");
+            kani::assert(cmd != 4 || f & (CSR_A | ROOT | NOC_A) == 0, "C08.order.update_noc_not_in_add_flow");
+            kani::assert(!(cmd == 1 || cmd == 2) || f & (NOC_A | NOC_U) == 0, "C08.order.no_csr_after_a_noc_command");
+        }
+        kani::cover!(accepted && cmd == 3, "AddNOC accepted");
+        kani::cover!(accepted && cmd == 4, "UpdateNOC accepted");
+        kani::cover!(accepted && cmd == 0 && f & CSR_U != 0, "root staged in an update flow (dead end, allowed)");
+        kani::cover!(!accepted && cmd == 3 && f == ROOT | CSR_A | NOC_A, "second AddNOC refused");
+    }
+
+    // TIER: quick
+    // KIND: complete
+    /// D12 candidate: the prescribed order has no AddTrustedRootCertificate after a NOC command.
+    #[kani::proof]
+    #[kani::unwind(8)]
+    fn c08_d12_root_cert_not_after_noc_command() {
+        let (cmd, f, _f2, accepted) = accept_step();
+        kani::assert(!(accepted && cmd == 0) || f & (NOC_A | NOC_U) == 0, "C08.order.no_root_cert_after_a_noc_command");
+        kani::cover!(accepted && cmd == 0, "root accepted");
+    }
+
+    // ==== small queries ==================================================================================
+
+    // TIER: quick
+    // KIND: complete
+    /// `is_armed`, `is_armed_for`, `has_pending_noc_for`, `pending_root_ca`, `breadcrumb`, `add_flags`.
+    #[kani::proof]
+    #[kani::unwind(34)]
+    fn c08_queries_and_add_flags() {
+        let mut fs = any_failsafe();
+        let probe: usize = kani::any();
+        let s = fs_snap(&fs, probe);
+        let fab: u8 = kani::any();
+        let nz: NonZeroU8 = kani::any();
+
+        kani::assert(fs.is_armed() == s.armed, "C08.is_armed.iff_armed");
+        kani::assert(fs.is_armed_for(fab) == (s.armed && s.fab_idx == fab), "C08.is_armed_for.iff_armed_for_that_fabric");
+        kani::assert(
+            fs.has_pending_noc_for(nz) == (s.armed && s.fab_idx == nz.get() && s.flags & (NOC_A | NOC_U) != 0),
+            "C08.has_pending_noc_for.iff_noc_command_accepted_for_that_fabric",
+        );
+        kani::assert(fs.breadcrumb() == s.breadcrumb, "C08.breadcrumb.is_the_field");
+        // a root certificate is "pending" from AddTrustedRootCertificate until a NOC command binds it
+        let pending = s.armed && s.flags & ROOT != 0 && s.flags & (NOC_A | NOC_U) == 0 && s.root_len > 0;
+        let p = fs.pending_root_ca();
+        kani::assert(p.is_some() == pending, "C08.pending_root_ca.iff_staged_and_unbound");
+        kani::assert(
+            p.map(|b| b.len() == s.root_len && b.get(probe).copied() == s.root_byte).unwrap_or(true),
+            "C08.pending_root_ca.is_the_staged_root",
+        );
+
+        if s.armed {
+            let add: u8 = kani::any();
+            kani::assume(add < 0x20);
+            fs.add_flags(NocFlags::from_bits_truncate(add));
+            let t = fs_snap(&fs, probe);
+            kani::assert(t.flags == s.flags | add, "C08.add_flags.union");
+            let mut expect = s;
+            expect.flags = s.flags | add;
+            kani::assert(t == expect, "C08.add_flags.nothing_else_changes");
+        }
+        kani::cover!(pending, "pending root");
+        kani::cover!(s.armed && s.flags & ROOT != 0 && s.flags & NOC_U != 0, "root present but bound");
+        kani::cover!(fs.has_pending_noc_for(nz), "pending NOC");
+    }
+
+    // ==== arm / disarm ===================================================================================
+
+    // TIER: quick
+    // KIND: complete
+    /// `arm` @ failsafe.rs:268.
+    #[kani::proof]
+    #[kani::unwind(34)]
+    #[kani::stub(embassy_time::Instant::now, stub_now)]
+    #[kani::stub(crate::sc::pase::Pase::comm_window, stub_comm_window)]
+    fn c08_arm_contract() {
+        let mut fs = any_failsafe();
+        let mode = any_mode();
+        let timeout: u16 = kani::any();
+        let breadcrumb: u64 = kani::any();
+        let window_open: bool = kani::any();
+        let now: u64 = kani::any();
+        unsafe {
+            WINDOW_OPEN = window_open;
+            NOW = now;
+        }
+        let mut pase = Pase::new();
+        let probe: usize = kani::any();
+        let s = fs_snap(&fs, probe);
+        let (secured, operational, fab) = mode_view(&mode);
+
+        let r = fs.arm(timeout, breadcrumb, &mode, &mut pase);
+
+        let t = fs_snap(&fs, probe);
+        let code = r.as_ref().err().map(|e| e.code());
+        if !s.armed {
+            // arming: over a secured session; not over CASE while a commissioning window is open
+            let ok = secured && !(window_open && operational);
+            kani::assert(r.is_ok() == ok, "C08.arm.idle_ok_iff_secured_and_not_case_during_window");
+            if ok {
+                kani::assert(t.armed && t.fab_idx == fab, "C08.arm.context_is_the_arming_session_fabric");
+                kani::assert(t.flags == 0, "C08.arm.fresh_context_has_no_flags");
+                kani::assert(t.timeout == timeout && t.armed_at == now, "C08.arm.timer_started_now");
+                kani::assert(t.breadcrumb == breadcrumb, "C08.arm.breadcrumb_set");
+            } else {
+                kani::assert(t == s, "C08.arm.refused_arm_changes_nothing");
+                kani::assert(
+                    code == Some(if !secured { ErrorCode::GennCommInvalidAuthentication } else { ErrorCode::Busy }),
+                    "C08.arm.refusal_codes",
+                );
+            }
+        } else {
+            // re-arming: only from the session context of the armed fail-safe
+            let ok = gate(&s, &mode, 0, 0, 0);
+            kani::assert(r.is_ok() == ok, "C08.arm.rearm_ok_iff_same_session_context");
+            if !ok {
+                kani::assert(t == s, "C08.arm.refused_rearm_changes_nothing");
+            } else if timeout > 0 {
+                let mut expect = s;
+                expect.armed_at = now;
+                expect.timeout = timeout;
+                expect.breadcrumb = breadcrumb;
+                // flags, fabric and the staged material survive a re-arm
+                kani::assert(t == expect, "C08.arm.rearm_restarts_timer_only");
+            } else {
+                kani::assert(!t.armed && t.breadcrumb == 0, "C08.arm.rearm_with_zero_is_idle_breadcrumb_zero");
+            }
+        }
+        // staging buffers are never touched by arm
+        kani::assert(t.root() == s.root() && t.secret == s.secret, "C08.arm.staging_untouched");
+
+        kani::cover!(!s.armed && r.is_ok() && operational, "armed over CASE");
+        kani::cover!(!s.armed && code == Some(ErrorCode::Busy), "CASE during window");
+        kani::cover!(s.armed && r.is_ok() && timeout == 0, "re-arm 0");
+        kani::cover!(s.armed && r.is_ok() && timeout > 0 && s.flags != 0, "re-arm keeps flags");
+        kani::cover!(s.armed && r.is_err(), "re-arm refused");
+    }
+
+    // TIER: quick
+    // KIND: complete (abstract fabric table of any size up to MAX_FABRICS)
+    /// `disarm` @ failsafe.rs:329 (CommissioningComplete).
+    #[kani::proof]
+    #[kani::unwind(34)]
+    #[kani::stub(crate::fabric::Fabrics::get, crate::fabric::verif_kani::c08::ghost_get)]
+    #[kani::stub(crate::fabric::Fabrics::get_mut, crate::fabric::verif_kani::c08::ghost_get_mut)]
+    fn c08_disarm_contract() {
+        let mut fs = any_failsafe();
+        let mode = any_mode();
+        let mut fabrics: Fabrics = kani::any();
+        let probe: usize = kani::any();
+        let s = fs_snap(&fs, probe);
+        let (_, operational, fab) = mode_view(&mode);
+        let known = NonZeroU8::new(fab).map(|f| fabrics.get(f).is_some()).unwrap_or(false);
+        let g: NonZeroU8 = kani::any();
+        let g_before = fabrics.get(g).map(|f| f.fabric_id());
+
+        let r = fs.disarm(&mode, &mut fabrics);
+
+        let got = r.as_ref().ok().map(|f| f.fab_idx().get());
+        let code = r.as_ref().err().map(|e| e.code());
+        let t = fs_snap(&fs, probe);
+        // completes only over an operational session of the fabric the context belongs to, which exists
+        let ok = gate(&s, &mode, 0, 0, 0) && operational && known;
+        kani::assert(got.is_some() == ok, "C08.disarm.ok_iff_case_session_of_armed_fabric");
+        if ok {
+            kani::assert(got == Some(fab), "C08.disarm.returns_that_fabric");
+            kani::assert(!t.armed && t.breadcrumb == 0, "C08.disarm.idle_breadcrumb_zero");
+        } else {
+            kani::assert(t == s, "C08.disarm.refusal_changes_nothing");
+            kani::assert(s.armed || code == Some(ErrorCode::FailSafeRequired), "C08.disarm.unarmed_is_failsafe_required");
+        }
+        kani::assert(fabrics.get(g).map(|f| f.fabric_id()) == g_before, "C08.disarm.fabric_table_untouched");
+        kani::cover!(ok, "commissioning complete");
+        kani::cover!(s.armed && operational && s.fab_idx == fab && !known, "armed fabric is gone");
+        kani::cover!(s.armed && !operational, "not CASE");
+    }
+
+    // ==== the credential commands ========================================================================
+
+    // TIER: quick
+    // KIND: complete
+    /// `add_trusted_root_cert` @ failsafe.rs:420, certificate validation = any outcome, any input of
+    /// 0..=402 bytes (the buffer holds 400).
+    #[kani::proof]
+    #[kani::unwind(405)]
+    #[kani::stub(crate::cert::CertVerifier::finalise, stub_finalise)]
+    #[kani::stub(crate::cert::CertRef::basic_constraints_path_len, stub_path_len)]
+    fn c08_add_trusted_root_cert_contract() {
+        let mut fs = any_failsafe();
+        let mode = any_mode();
+        let input: [u8; MAX_CERT_TLV_LEN + 2] = kani::any();
+        let len: usize = kani::any();
+        kani::assume(len <= MAX_CERT_TLV_LEN + 2);
+        let probe: usize = kani::any();
+        let s = fs_snap(&fs, probe);
+        let mut buf = [0u8; 8];
+
+        let r = fs.add_trusted_root_cert(NdCrypto, any_time(), &mode, &input[..len], &mut buf);
+
+        let t = fs_snap(&fs, probe);
+        let (present, absent, op) = triple(0);
+        if r.is_ok() {
+            kani::assert(gate(&s, &mode, present, absent, op), "C08.add_root.ok_only_through_gate");
+            let mut expect = s.ctl();
+            expect.4 |= op;
+            kani::assert(t.ctl() == expect, "C08.add_root.ok_records_flag_and_nothing_else");
+            kani::assert(
+                t.root_len == len && t.root_byte == input[..len].get(probe).copied(),
+                "C08.add_root.ok_stages_exactly_the_input",
+            );
+            kani::assert(t.secret == s.secret, "C08.add_root.key_untouched");
+        } else {
+            err_keeps_state!(s, t, "C08.add_root.err_keeps_state", "C08.add_root.err_keeps_staged_root", "C08.add_root.err_keeps_staged_key");
+        }
+        kani::assert(!(len > MAX_CERT_TLV_LEN) || r.is_err(), "C08.add_root.oversize_refused");
+
+        kani::cover!(r.is_ok() && len == MAX_CERT_TLV_LEN, "largest root staged");
+        kani::cover!(r.is_ok() && s.flags & CSR_A != 0, "root after CSR");
+        kani::cover!(r.is_err() && gate(&s, &mode, present, absent, op), "validation failed behind the gate");
+        kani::cover!(r.is_err() && t.root() != s.root(), "dead root buffer cleared by a refused oversize certificate");
+    }
+
+    fn check_csr(update: bool) {
+        let mut fs = any_failsafe();
+        let mode = any_mode();
+        let probe: usize = kani::any();
+        let s = fs_snap(&fs, probe);
+
+        let r = if update { fs.update_csr_req(NdCrypto, &mode) } else { fs.add_csr_req(NdCrypto, &mode) };
+        let key: Option<[u8; 32]> = r.as_ref().ok().map(|k| *k.access());
+        drop(r);
+
+        let t = fs_snap(&fs, probe);
+        let (present, absent, op) = triple(if update { 2 } else { 1 });
+        let (_, operational, _) = mode_view(&mode);
+        if let Some(key) = key {
+            if update {
+                kani::assert(gate(&s, &mode, present, absent, op) && operational, "C08.update_csr.ok_only_through_gate_over_case");
+            } else {
+                kani::assert(gate(&s, &mode, present, absent, op), "C08.add_csr.ok_only_through_gate");
+            }
+            let mut expect = s.ctl();
+            expect.4 |= op;
+            if update {
+                kani::assert(t.ctl() == expect, "C08.update_csr.ok_records_flag_and_nothing_else");
+                kani::assert(key == t.secret, "C08.update_csr.returns_the_staged_key");
+                kani::assert(t.root() == s.root(), "C08.update_csr.root_untouched");
+            } else {
+                kani::assert(t.ctl() == expect, "C08.add_csr.ok_records_flag_and_nothing_else");
+                kani::assert(key == t.secret, "C08.add_csr.returns_the_staged_key");
+                kani::assert(t.root() == s.root(), "C08.add_csr.root_untouched");
+            }
+        } else if update {
+            err_keeps_state!(s, t, "C08.update_csr.err_keeps_state", "C08.update_csr.err_keeps_staged_root", "C08.update_csr.err_keeps_staged_key");
+        } else {
+            err_keeps_state!(s, t, "C08.add_csr.err_keeps_state", "C08.add_csr.err_keeps_staged_root", "C08.add_csr.err_keeps_staged_key");
+        }
+        kani::cover!(key.is_some(), "CSR accepted");
+        kani::cover!(key.is_some() && s.flags & ROOT != 0, "CSR after root");
+        kani::cover!(key.is_none() && gate(&s, &mode, present, absent, op), "key generation failed behind the gate");
+        kani::cover!(key.is_none() && t.secret != s.secret, "dead key buffer overwritten by a failed export");
+    }
+
+    // TIER: quick
+    // KIND: complete
+    /// `add_csr_req` @ failsafe.rs:473.
+    #[kani::proof]
+    #[kani::unwind(34)]
+    fn c08_add_csr_req_contract() {
+        check_csr(false);
+    }
+
+    // TIER: quick
+    // KIND: complete
+    /// `update_csr_req` @ failsafe.rs:493.
+    #[kani::proof]
+    #[kani::unwind(34)]
+    fn c08_update_csr_req_contract() {
+        check_csr(true);
+    }
+
+    // TIER: thorough
+    // KIND: complete (abstract fabric table of any size up to MAX_FABRICS)
+    /// `add_noc` @ failsafe.rs:615; chain validation, key match, fabric-id extraction and
+    /// `Fabrics::add` by contract (any outcome).
+    #[kani::proof]
+    #[kani::unwind(67)]
+    #[kani::stub(FailSafe::validate_certs, stub_validate_certs)]
+    #[kani::stub(crate::cert::CertRef::pubkey, stub_pubkey)]
+    #[kani::stub(crate::cert::CertRef::get_fabric_id, stub_get_fabric_id)]
+    #[kani::stub(crate::fabric::Fabrics::get, crate::fabric::verif_kani::c08::ghost_get)]
+    #[kani::stub(crate::fabric::Fabrics::add, crate::fabric::verif_kani::c08::ghost_add)]
+    fn c08_add_noc_contract() {
+        unsafe { PUBKEYS = kani::any() };
+        let mut fs = any_failsafe();
+        let mode = any_mode();
+        let mut fabrics: Fabrics = kani::any();
+        let probe: usize = kani::any();
+        let s = fs_snap(&fs, probe);
+        let g: NonZeroU8 = kani::any();
+        let g_before = fabrics.get(g).map(|f| f.fabric_id());
+        let noc = [0u8; 4];
+        let ipk: [u8; 17] = kani::any();
+        let ipk_len: usize = kani::any();
+        kani::assume(ipk_len <= 17);
+        let subject: u64 = kani::any();
+        let mut buf = [0u8; 8];
+        let mdns = Cell::new(0u8);
+
+        let r = fs.add_noc(
+            NdCrypto,
+            any_time(),
+            &mut fabrics,
+            &mode,
+            kani::any(),
+            if kani::any() { Some(&noc[..2]) } else { None },
+            &noc,
+            &ipk[..ipk_len],
+            subject,
+            &mut buf,
+            || mdns.set(mdns.get().saturating_add(1)),
+        );
+        let new_idx = r.as_ref().ok().map(|f| f.fab_idx().get());
+        drop(r);
+
+        let t = fs_snap(&fs, probe);
+        let (present, absent, op) = triple(3);
+        if let Some(new_idx) = new_idx {
+            kani::assert(gate(&s, &mode, present, absent, op), "C08.add_noc.ok_only_through_gate");
+            let mut expect = s.ctl();
+            expect.4 |= op;
+            expect.3 = new_idx;
+            kani::assert(t.ctl() == expect, "C08.add_noc.ok_records_flag_and_binds_context_to_new_fabric");
+            kani::assert(g.get() != new_idx || fabrics.get(g).is_some(), "C08.add_noc.ok_new_fabric_is_in_the_table");
+            kani::assert(g.get() == new_idx || fabrics.get(g).map(|f| f.fabric_id()) == g_before, "C08.add_noc.ok_other_fabrics_untouched");
+            kani::assert(g.get() != new_idx || g_before.is_none(), "C08.add_noc.ok_new_index_was_unused");
+            kani::assert(mdns.get() == 1, "C08.add_noc.ok_announces_once");
+        } else {
+            err_keeps_state!(s, t, "C08.add_noc.err_keeps_state", "C08.add_noc.err_keeps_staged_root", "C08.add_noc.err_keeps_staged_key");
+            kani::assert(fabrics.get(g).map(|f| f.fabric_id()) == g_before, "C08.add_noc.err_fabrics_untouched");
+            kani::assert(mdns.get() == 0, "C08.add_noc.err_announces_nothing");
+        }
+        // the staged material is consumed, never modified
+        kani::assert(t.root() == s.root() && t.secret == s.secret, "C08.add_noc.staging_untouched");
+
+        kani::cover!(new_idx.is_some(), "AddNOC accepted");
+        kani::cover!(new_idx.is_some() && matches!(mode, SessionMode::Pase { .. }), "AddNOC over PASE");
+        kani::cover!(new_idx.is_none() && gate(&s, &mode, present, absent, op), "refused behind the gate");
+        kani::cover!(new_idx.is_some() && g_before.is_some(), "added next to existing fabrics");
+    }
+
+    // TIER: thorough
+    // KIND: complete (abstract fabric table of any size up to MAX_FABRICS)
+    /// `update_noc` @ failsafe.rs:518; same stubs, `Fabrics::update` by contract.
+    #[kani::proof]
+    #[kani::unwind(67)]
+    #[kani::stub(FailSafe::validate_certs, stub_validate_certs)]
+    #[kani::stub(crate::cert::CertRef::pubkey, stub_pubkey)]
+    #[kani::stub(crate::cert::CertRef::get_fabric_id, stub_get_fabric_id)]
+    #[kani::stub(crate::fabric::Fabrics::get, crate::fabric::verif_kani::c08::ghost_get)]
+    #[kani::stub(crate::fabric::Fabrics::update, crate::fabric::verif_kani::c08::ghost_update)]
+    fn c08_update_noc_contract() {
+        unsafe { PUBKEYS = kani::any() };
+        let mut fs = any_failsafe();
+        let mode = any_mode();
+        let mut fabrics: Fabrics = kani::any();
+        let probe: usize = kani::any();
+        let s = fs_snap(&fs, probe);
+        let g: NonZeroU8 = kani::any();
+        let g_present = fabrics.get(g).is_some();
+        let (_, operational, fab) = mode_view(&mode);
+        let noc = [0u8; 4];
+        let mut buf = [0u8; 8];
+        let mdns = Cell::new(0u8);
+
+        let r = fs.update_noc(
+            NdCrypto,
+            any_time(),
+            &mut fabrics,
+            &mode,
+            if kani::any() { Some(&noc[..2]) } else { None },
+            &noc,
+            &mut buf,
+            || mdns.set(mdns.get().saturating_add(1)),
+        );
+        let idx = r.as_ref().ok().map(|f| f.fab_idx().get());
+        drop(r);
+
+        let t = fs_snap(&fs, probe);
+        let (present, absent, op) = triple(4);
+        if let Some(idx) = idx {
+            kani::assert(gate(&s, &mode, present, absent, op) && operational, "C08.update_noc.ok_only_through_gate_over_case");
+            kani::assert(idx == fab && idx == s.fab_idx, "C08.update_noc.ok_updates_the_sessions_own_fabric");
+            let mut expect = s.ctl();
+            expect.4 |= op;
+            kani::assert(t.ctl() == expect, "C08.update_noc.ok_records_flag_and_nothing_else");
+            kani::assert(mdns.get() == 1, "C08.update_noc.ok_announces_once");
+        } else {
+            err_keeps_state!(s, t, "C08.update_noc.err_keeps_state", "C08.update_noc.err_keeps_staged_root", "C08.update_noc.err_keeps_staged_key");
+            kani::assert(mdns.get() == 0, "C08.update_noc.err_announces_nothing");
+        }
+        kani::assert(fabrics.get(g).is_some() == g_present, "C08.update_noc.no_fabric_appears_or_disappears");
+        kani::assert(t.root() == s.root() && t.secret == s.secret, "C08.update_noc.staging_untouched");
+
+        kani::cover!(idx.is_some(), "UpdateNOC accepted");
+        kani::cover!(idx.is_none() && gate(&s, &mode, present, absent, op), "refused behind the gate");
+    }
+
+    // ==== expiry ========================================================================================
+
+    pub(super) struct ExpireRun {
+        pub(super) before: FsSnap,
+        pub(super) after: FsSnap,
+        pub(super) result: Result<Option<u8>, ErrorCode>,
+        pub(super) fab_present_before: bool,
+        pub(super) fab_blob: bool,
+        pub(super) net_blob: bool,
+        pub(super) net_log: u8,
+        pub(super) mdns: u8,
+        pub(super) notified: (bool, bool, bool),
+        pub(super) keep: Option<u32>,
+        /// an arbitrary session id and what the table said about it before / after:
+        /// (kind: 0 plain text, 1 PASE, 2 CASE, 3 group; fabric index; expired)
+        pub(super) probe_id: u32,
+        pub(super) sess_before: Option<(u8, u8, bool)>,
+        pub(super) sess_after: Option<(u8, u8, bool)>,
+        pub(super) fabrics: Fabrics,
+        /// an arbitrary other fabric index and what the table said about it before
+        pub(super) other: NonZeroU8,
+        pub(super) other_before: Option<u64>,
+    }
+
+    pub(super) fn sess_view(sessions: &mut Sessions, id: u32) -> Option<(u8, u8, bool)> {
+        sessions.get(id).map(|s| {
+            let (kind, fab) = match s.get_session_mode() {
+                SessionMode::PlainText => (0, 0),
+                SessionMode::Pase { fab_idx } => (1, *fab_idx),
+                SessionMode::Case { fab_idx, .. } => (2, fab_idx.get()),
+                SessionMode::Group { fab_idx, .. } => (3, fab_idx.get()),
+            };
+            (kind, fab, s.is_expired())
+        })
+    }
+
+    /// Run `expire` (or `check_failsafe_timeout` when `timer` is set) on an arbitrary fail-safe, an
+    /// arbitrary (abstract) fabric table and session table. `fabric_there` selects the case: the armed
+    /// fabric (if the context names one) is / is not in the table.
+    pub(super) fn run_expire(kv_fails: bool, fabric_there: bool, timer: bool) -> ExpireRun {
+        let mut fs = any_failsafe();
+        let mut fabrics: Fabrics = kani::any();
+        let mut sessions: Sessions = kani::any();
+        let keep: Option<u32> = kani::any();
+        let kv = NdKv { fail: kv_fails, fab_blob: kani::any(), net_blob: kani::any() };
+        let nets = NdNetAccess { log: Cell::new(0), fail: kv_fails };
+        let before = fs_snap(&fs, 0);
+        let armed_fab = if before.armed { NonZeroU8::new(before.fab_idx) } else { None };
+        let fab_present_before = armed_fab.map(|f| fabrics.get(f).is_some()).unwrap_or(false);
+        if armed_fab.is_some() {
+            kani::assume(fab_present_before == fabric_there);
+        }
+        let other: NonZeroU8 = kani::any();
+        kani::assume(Some(other) != armed_fab);
+        let other_before = fabrics.get(other).map(|f| f.fabric_id());
+        let probe_id: u32 = kani::any();
+        let sess_before = sess_view(&mut sessions, probe_id);
+        let mdns = Cell::new(0u8);
+        let notified = Cell::new((false, false, false));
+        let notify = |ep: EndptId, cl: ClusterId| {
+            let (a, b, c) = notified.get();
+            if ep == ROOT_ENDPOINT_ID && cl == crate::dm::clusters::decl::operational_credentials::FULL_CLUSTER.id {
+                notified.set((true, b, c));
+            } else if ep == ROOT_ENDPOINT_ID && cl == crate::dm::clusters::decl::network_commissioning::FULL_CLUSTER.id {
+                notified.set((a, true, c));
+            } else {
+                notified.set((a, b, true));
+            }
+        };
+
+        let r = if timer {
+            fs.check_failsafe_timeout(&mut fabrics, &mut sessions, &nets, &kv, keep, || mdns.set(mdns.get().saturating_add(1)), notify)
+        } else {
+            fs.expire(&mut fabrics, &mut sessions, keep, &nets, &kv, || mdns.set(mdns.get().saturating_add(1)), notify)
+        };
+
+        ExpireRun {
+            before,
+            after: fs_snap(&fs, 0),
+            result: match r {
+                Ok(o) => Ok(o.map(|f| f.get())),
+                Err(e) => Err(e.code()),
+            },
+            fab_present_before,
+            fab_blob: kv.fab_blob,
+            net_blob: kv.net_blob,
+            net_log: nets.log.get(),
+            mdns: mdns.get(),
+            notified: notified.get(),
+            keep,
+            probe_id,
+            sess_before,
+            sess_after: sess_view(&mut sessions, probe_id),
+            fabrics,
+            other,
+            other_before,
+        }
+    }
+
+    /// Postcondition of a completed expiry, from the statement: the fail-safe is idle with breadcrumb
+    /// 0; the fabric of the context is what the store holds for it (its persisted copy, or nothing -
+    /// reported as removed); every other fabric is untouched; the networks are what the store holds;
+    /// no PASE session survives except the one the answer goes out on, expired; everybody is told.
+    pub(super) fn check_expired(x: &ExpireRun) {
+        let f = x.before.fab_idx;
+        kani::assert(x.result.is_ok(), "C08.expire.ok_when_store_works");
+        kani::assert(!x.after.armed, "C08.expire.idle_afterwards");
+        kani::assert(x.after.breadcrumb == 0, "C08.expire.breadcrumb_zero");
+        match NonZeroU8::new(f) {
+            Some(fz) => {
+                let now = x.fabrics.get(fz).map(|fab| fab.fabric_id());
+                kani::assert(
+                    now == if x.fab_blob { Some(PERSISTED_FABRIC_ID) } else { None },
+                    "C08.expire.fabric_is_its_persisted_copy_or_absent",
+                );
+                kani::assert(
+                    x.result == Ok(if x.fab_blob { None } else { Some(f) }),
+                    "C08.expire.reports_removal_iff_no_persisted_copy",
+                );
+            }
+            None => {
+                kani::assert(x.result == Ok(None), "C08.expire.no_fabric_context_removes_none");
+            }
+        }
+        kani::assert(
+            x.fabrics.get(x.other).map(|fab| fab.fabric_id()) == x.other_before,
+            "C08.expire.other_fabrics_untouched",
+        );
+        kani::assert(x.net_log == if x.net_blob { 1 } else { 2 }, "C08.expire.networks_are_the_persisted_ones");
+        // sessions, through the arbitrary probe id (ids are unique): no PASE session is left but the
+        // one the answer goes out on, expired; no session appears; a session that is neither PASE nor
+        // on the fabric reported as removed is untouched
+        if let Some((kind, _, expired)) = x.sess_after {
+            kani::assert(kind != 1 || (Some(x.probe_id) == x.keep && expired), "C08.expire.no_live_pase_session_left");
+            kani::assert(x.sess_before.is_some(), "C08.expire.no_session_appears");
+        }
+        if let Some((kind, fab, _)) = x.sess_before {
+            let removed = matches!(x.result, Ok(Some(f)) if f == fab);
+            kani::assert(kind == 1 || removed || x.sess_after == x.sess_before, "C08.expire.sessions_of_other_fabrics_untouched");
+        }
+        kani::assert(x.mdns == 1, "C08.expire.mdns_told_once");
+        kani::assert(x.notified == (true, true, false), "C08.expire.subscribers_told_about_credentials_and_networks");
+    }
+
+    pub(super) fn check_untouched(x: &ExpireRun) {
+        kani::assert(x.result == Ok(None), "C08.expire.noop_reports_nothing");
+        kani::assert(x.after == x.before, "C08.expire.noop_keeps_failsafe");
+        kani::assert(x.net_log == 0 && x.mdns == 0 && x.notified == (false, false, false), "C08.expire.noop_touches_nothing");
+        kani::assert(x.sess_after == x.sess_before, "C08.expire.noop_keeps_sessions");
+        kani::assert(
+            x.fabrics.get(x.other).map(|fab| fab.fabric_id()) == x.other_before,
+            "C08.expire.noop_keeps_fabrics",
+        );
+    }
+
+    // TIER: quick
+    // KIND: bounded (abstract session table of at most 4 sessions; abstract fabric table of any size up to MAX_FABRICS)
+    /// `expire` @ failsafe.rs:186 with a working store; case: the fabric of the context (if it names
+    /// one) is in the table. The complementary case is `c08_d6_expire_fabric_already_gone`.
+    #[kani::proof]
+    #[kani::unwind(34)]
+    #[kani::stub(crate::fabric::Fabrics::get, crate::fabric::verif_kani::c08::ghost_get)]
+    #[kani::stub(crate::fabric::Fabrics::remove, crate::fabric::verif_kani::c08::ghost_remove)]
+    #[kani::stub(crate::fabric::Fabrics::add_load, crate::fabric::verif_kani::c08::ghost_add_load)]
+    #[kani::stub(crate::transport::session::Sessions::get, crate::transport::session::verif_kani::c07::ghost_get)]
+    #[kani::stub(crate::transport::session::Sessions::remove_pase, crate::transport::session::verif_kani::c07::ghost_remove_pase)]
+    #[kani::stub(crate::transport::session::Sessions::remove_for_fabric, crate::transport::session::verif_kani::c07::ghost_remove_for_fabric)]
+    fn c08_expire_contract() {
+        let x = run_expire(false, true, false);
+        if x.before.armed {
+            check_expired(&x);
+        } else {
+            check_untouched(&x);
+        }
+        kani::cover!(x.before.armed && x.result == Ok(Some(x.before.fab_idx)), "fabric of an AddNOC rolled back");
+        kani::cover!(x.before.armed && x.before.fab_idx != 0 && x.result == Ok(None), "fabric restored from its persisted copy");
+        kani::cover!(x.before.armed && x.before.fab_idx == 0, "context without fabric (PASE before AddNOC)");
+        kani::cover!(matches!(x.sess_before, Some((1, _, _))) && x.sess_after.is_none(), "PASE session dropped");
+        kani::cover!(matches!(x.sess_after, Some((1, _, true))), "PASE session of the answer kept, expired");
+    }
+
+    // TIER: quick
+    // KIND: bounded (abstract session table of at most 4 sessions; abstract fabric table of any size up to MAX_FABRICS)
+    /// D6: the same postcondition when the fabric the context names is no longer in the table
+    /// (removed by RemoveFabric from another session, or by an earlier half-done expiry).
+    #[kani::proof]
+    #[kani::unwind(34)]
+    #[kani::stub(crate::fabric::Fabrics::get, crate::fabric::verif_kani::c08::ghost_get)]
+    #[kani::stub(crate::fabric::Fabrics::remove, crate::fabric::verif_kani::c08::ghost_remove)]
+    #[kani::stub(crate::fabric::Fabrics::add_load, crate::fabric::verif_kani::c08::ghost_add_load)]
+    #[kani::stub(crate::transport::session::Sessions::get, crate::transport::session::verif_kani::c07::ghost_get)]
+    #[kani::stub(crate::transport::session::Sessions::remove_pase, crate::transport::session::verif_kani::c07::ghost_remove_pase)]
+    #[kani::stub(crate::transport::session::Sessions::remove_for_fabric, crate::transport::session::verif_kani::c07::ghost_remove_for_fabric)]
+    fn c08_d6_expire_fabric_already_gone() {
+        let x = run_expire(false, false, false);
+        kani::assume(x.before.armed && x.before.fab_idx != 0);
+        kani::cover!(x.result == Err(ErrorCode::NotFound) && x.after == x.before, "D6 witness: Err(NotFound), fail-safe still armed exactly as before");
+        kani::cover!(x.result.is_ok(), "expiry completes");
+        check_expired(&x);
+    }
+
+    // TIER: quick
+    // KIND: bounded (abstract session table of at most 4 sessions; abstract fabric table of any size up to MAX_FABRICS)
+    /// `expire` with a failing store: an error leaves the fail-safe armed (so the expiry is retried),
+    /// with its context intact, and no fabric other than the context's is touched.
+    #[kani::proof]
+    #[kani::unwind(34)]
+    #[kani::stub(crate::fabric::Fabrics::get, crate::fabric::verif_kani::c08::ghost_get)]
+    #[kani::stub(crate::fabric::Fabrics::remove, crate::fabric::verif_kani::c08::ghost_remove)]
+    #[kani::stub(crate::fabric::Fabrics::add_load, crate::fabric::verif_kani::c08::ghost_add_load)]
+    #[kani::stub(crate::transport::session::Sessions::get, crate::transport::session::verif_kani::c07::ghost_get)]
+    #[kani::stub(crate::transport::session::Sessions::remove_pase, crate::transport::session::verif_kani::c07::ghost_remove_pase)]
+    #[kani::stub(crate::transport::session::Sessions::remove_for_fabric, crate::transport::session::verif_kani::c07::ghost_remove_for_fabric)]
+    fn c08_expire_store_failure() {
+        let x = run_expire(true, true, false);
+        if x.result.is_err() {
+            kani::assert(x.after == x.before, "C08.expire.error_keeps_failsafe_armed_as_it_was");
+            kani::assert(x.sess_after == x.sess_before, "C08.expire.error_keeps_sessions");
+            kani::assert(x.mdns == 0, "C08.expire.error_announces_nothing");
+        } else if x.before.armed {
+            kani::assert(!x.after.armed && x.after.breadcrumb == 0, "C08.expire.ok_means_idle");
+        }
+        kani::assert(
+            x.fabrics.get(x.other).map(|fab| fab.fabric_id()) == x.other_before,
+            "C08.expire.failure_keeps_other_fabrics",
+        );
+        kani::cover!(x.result.is_err(), "store failed");
+        kani::cover!(
+            x.result.is_err() && x.fab_present_before && NonZeroU8::new(x.before.fab_idx).map(|f| x.fabrics.get(f).is_none()).unwrap_or(false),
+            "store failed after the fabric was dropped: still armed, fabric gone (the D6 state)"
+        );
+    }
+
+    // TIER: quick
+    // KIND: bounded (abstract session table of at most 4 sessions; abstract fabric table of any size up to MAX_FABRICS)
+    /// `check_failsafe_timeout` @ failsafe.rs:129: nothing happens before `timeout_secs` have elapsed
+    /// since arming; from then on it is the expiry.
+    #[kani::proof]
+    #[kani::unwind(34)]
+    #[kani::stub(embassy_time::Instant::now, stub_now)]
+    #[kani::stub(crate::fabric::Fabrics::get, crate::fabric::verif_kani::c08::ghost_get)]
+    #[kani::stub(crate::fabric::Fabrics::remove, crate::fabric::verif_kani::c08::ghost_remove)]
+    #[kani::stub(crate::fabric::Fabrics::add_load, crate::fabric::verif_kani::c08::ghost_add_load)]
+    #[kani::stub(crate::transport::session::Sessions::get, crate::transport::session::verif_kani::c07::ghost_get)]
+    #[kani::stub(crate::transport::session::Sessions::remove_pase, crate::transport::session::verif_kani::c07::ghost_remove_pase)]
+    #[kani::stub(crate::transport::session::Sessions::remove_for_fabric, crate::transport::session::verif_kani::c07::ghost_remove_for_fabric)]
+    fn c08_check_failsafe_timeout_contract() {
+        let now: u64 = kani::any();
+        unsafe { NOW = now };
+        let x = run_expire(false, true, true);
+        // assumption (documented): tick arithmetic does not reach the end of the 64-bit tick range
+        let deadline = x.before.armed_at as u128 + x.before.timeout as u128 * embassy_time::TICK_HZ as u128;
+        kani::assume(deadline <= u64::MAX as u128);
+        let due = x.before.armed && now as u128 >= deadline;
+        if due {
+            check_expired(&x);
+        } else {
+            check_untouched(&x);
+        }
+        kani::cover!(due, "timed out");
+        kani::cover!(x.before.armed && !due, "still running");
+        kani::cover!(x.before.armed && x.before.timeout == 0 && due, "zero timeout");
+    }
+}
+
+mod c07 {
+    use super::*;
+    use super::c08::run_expire;
+
+    // TIER: quick
+    // KIND: bounded (abstract session table of at most 4 sessions; abstract fabric table of any size up to MAX_FABRICS)
+    /// PASE half (holds today): when the expiry removes fabric `f`, no live PASE session promoted to
+    /// `f` is left.
+    #[kani::proof]
+    #[kani::unwind(8)]
+    #[kani::stub(crate::fabric::Fabrics::get, crate::fabric::verif_kani::c08::ghost_get)]
+    #[kani::stub(crate::fabric::Fabrics::remove, crate::fabric::verif_kani::c08::ghost_remove)]
+    #[kani::stub(crate::fabric::Fabrics::add_load, crate::fabric::verif_kani::c08::ghost_add_load)]
+    #[kani::stub(crate::transport::session::Sessions::get, crate::transport::session::verif_kani::c07::ghost_get)]
+    #[kani::stub(crate::transport::session::Sessions::remove_pase, crate::transport::session::verif_kani::c07::ghost_remove_pase)]
+    #[kani::stub(crate::transport::session::Sessions::remove_for_fabric, crate::transport::session::verif_kani::c07::ghost_remove_for_fabric)]
+    fn c07_expire_leaves_no_pase_session_of_removed_fabric() {
+        let x = run_expire(false, true, false);
+        if let Ok(Some(f)) = x.result {
+            kani::assert(NonZeroU8::new(f).map(|fz| x.fabrics.get(fz).is_none()).unwrap_or(false), "C07.expire.reported_fabric_is_gone");
+            if let Some((kind, fab, expired)) = x.sess_after {
+                kani::assert(!(kind == 1 && fab == f) || expired, "C07.expire.no_live_pase_session_of_removed_fabric");
+            }
+        }
+        kani::cover!(matches!(x.result, Ok(Some(f)) if matches!(x.sess_after, Some((1, g, true)) if g == f)), "removed, promoted PASE session of the answer kept expired");
+    }
+
+    // TIER: quick
+    // KIND: bounded (abstract session table of at most 4 sessions; abstract fabric table of any size up to MAX_FABRICS)
+    /// D7: the full obligation - when the expiry removes fabric `f`, NO live session of `f` is left
+    /// (the index `f` is handed out again by the next AddNOC).
+    #[kani::proof]
+    #[kani::unwind(8)]
+    #[kani::stub(crate::fabric::Fabrics::get, crate::fabric::verif_kani::c08::ghost_get)]
+    #[kani::stub(crate::fabric::Fabrics::remove, crate::fabric::verif_kani::c08::ghost_remove)]
+    #[kani::stub(crate::fabric::Fabrics::add_load, crate::fabric::verif_kani::c08::ghost_add_load)]
+    #[kani::stub(crate::transport::session::Sessions::get, crate::transport::session::verif_kani::c07::ghost_get)]
+    #[kani::stub(crate::transport::session::Sessions::remove_pase, crate::transport::session::verif_kani::c07::ghost_remove_pase)]
+    #[kani::stub(crate::transport::session::Sessions::remove_for_fabric, crate::transport::session::verif_kani::c07::ghost_remove_for_fabric)]
+    fn c07_d7_expire_leaves_no_session_of_removed_fabric() {
+        let x = run_expire(false, true, false);
+        kani::cover!(
+            matches!(x.result, Ok(Some(f)) if x.sess_after == Some((2, f, false))),
+            "D7 witness: fabric reported removed, a CASE session on its index is still live"
+        );
+        if let Ok(Some(f)) = x.result {
+            // (ids are unique and the probe id is arbitrary: this is "for every session")
+            if let Some((_, fab, expired)) = x.sess_after {
+                kani::assert(fab != f || expired, "C07.expire.no_live_session_of_removed_fabric");
+            }
+        }
+        kani::cover!(matches!(x.result, Ok(Some(_))), "fabric removed");
+    }
+}
